@@ -23,7 +23,11 @@ Record fixes := {
   fx_drm : bool;            (* C08-drm-unknown.diff *)
   fx_kid : bool;            (* C08-laurl-kid.diff *)
   fx_urlgen_create : bool;  (* C08-urlgen-create.diff *)
-  fx_urlgen_drms : bool     (* C08-urlgen-drms.diff *)
+  fx_urlgen_drms : bool;    (* C08-urlgen-drms.diff *)
+  fx_nan : bool;            (* C08-nan.diff *)
+  fx_segnr404 : bool;       (* C08-segment-number-404.diff *)
+  fx_time404 : bool;        (* C08-time-404.diff *)
+  fx_mpd_status : bool      (* C08-mpd-status.diff *)
 }.
 
 (** The tree as it is now (the lead applied the repairs on 2026-10-01, see /verif/.work/fixes_note.md). *)
@@ -43,17 +47,34 @@ Definition current : fixes := {|
   fx_drm := true;              (* /repo fb86caa *)
   fx_kid := true;              (* /repo 6239920 *)
   fx_urlgen_create := true;    (* /repo 4a5b51b *)
-  fx_urlgen_drms := true       (* /repo 44cd2ab *)
+  fx_urlgen_drms := true;      (* /repo 44cd2ab *)
+  fx_nan := false;             (* proposed, not applied *)
+  fx_segnr404 := false;        (* proposed, not applied *)
+  fx_time404 := false;         (* proposed, not applied *)
+  fx_mpd_status := false       (* proposed, not applied *)
 |}.
 
 Definition all_fixed : fixes := {|
   fx_stoprel := true; fx_annexI := true; fx_loss := true; fx_periods := true; fx_subsdur := true;
   fx_snr := true; fx_traffic_idx := true; fx_chunkdur := true; fx_chunk_cap := true; fx_subs_startnr := true;
   fx_status_startnr := true; fx_status_cycle := true; fx_drm := true; fx_kid := true;
-  fx_urlgen_create := true; fx_urlgen_drms := true |}.
+  fx_urlgen_create := true; fx_urlgen_drms := true; fx_nan := true; fx_segnr404 := true; fx_time404 := true;
+  fx_mpd_status := true |}.
 
 Definition none_fixed : fixes := {|
   fx_stoprel := false; fx_annexI := false; fx_loss := false; fx_periods := false; fx_subsdur := false;
   fx_snr := false; fx_traffic_idx := false; fx_chunkdur := false; fx_chunk_cap := false; fx_subs_startnr := false;
   fx_status_startnr := false; fx_status_cycle := false; fx_drm := false; fx_kid := false;
-  fx_urlgen_create := false; fx_urlgen_drms := false |}.
+  fx_urlgen_create := false; fx_urlgen_drms := false; fx_nan := false; fx_segnr404 := false; fx_time404 := false;
+  fx_mpd_status := false |}.
+
+(** [current] plus the four status-class repairs proposed on 2026-10-01 (C08-nan, -segment-number-404,
+    -time-404, -mpd-status): what [current] becomes when they are applied. *)
+Definition current_plus_status : fixes := {|
+  fx_stoprel := fx_stoprel current; fx_annexI := fx_annexI current; fx_loss := fx_loss current;
+  fx_periods := fx_periods current; fx_subsdur := fx_subsdur current; fx_snr := fx_snr current;
+  fx_traffic_idx := fx_traffic_idx current; fx_chunkdur := fx_chunkdur current; fx_chunk_cap := fx_chunk_cap current;
+  fx_subs_startnr := fx_subs_startnr current; fx_status_startnr := fx_status_startnr current;
+  fx_status_cycle := fx_status_cycle current; fx_drm := fx_drm current; fx_kid := fx_kid current;
+  fx_urlgen_create := fx_urlgen_create current; fx_urlgen_drms := fx_urlgen_drms current;
+  fx_nan := true; fx_segnr404 := true; fx_time404 := true; fx_mpd_status := true |}.
